@@ -431,7 +431,19 @@ func (r *pxRun) block(st *pxState, fr *pxFrame, b, pred *ssa.BasicBlock, done fu
 	}
 	key := fmt.Sprintf("%d.%d", fr.id, b.Index)
 	if st.visits[key] >= r.cfg.MaxVisits {
-		return
+		// iterations whose loop condition was determined on this path are free
+		bonus := 0
+		pre := fmt.Sprintf("!%d.", fr.id)
+		for k, n := range st.visits {
+			if strings.HasPrefix(k, pre) {
+				if hi, err := strconv.Atoi(k[len(pre):]); err == nil && hi < len(fr.fn.Blocks) && fr.fn.Blocks[hi].Dominates(b) {
+					bonus += n
+				}
+			}
+		}
+		if st.visits[key] >= r.cfg.MaxVisits+bonus {
+			return
+		}
 	}
 	st.visits[key]++
 	if fr.depth == 0 {
@@ -538,6 +550,17 @@ func (r *pxRun) branch(st *pxState, fr *pxFrame, b *ssa.BasicBlock, cond *T, don
 		i := 1
 		if bv {
 			i = 0
+		}
+		// a decision that is determined on this path (e.g. the bound of a loop over a slice whose
+		// elements are known) does not use up the unrolling budget of its block — up to a hard cap
+		isHeader := false
+		for _, p := range b.Preds {
+			if b.Dominates(p) {
+				isHeader = true
+			}
+		}
+		if hk := fmt.Sprintf("!%d.%d", fr.id, b.Index); isHeader && st.visits[hk] < 64 {
+			st.visits[hk]++
 		}
 		r.block(st, fr, b.Succs[i], b, done)
 		return
@@ -1058,7 +1081,7 @@ func addrKey(a *T) string {
 func loadTerm(a *T, typ types.Type) *T {
 	switch a.Op {
 	case "faddr":
-		return &T{Op: "field", A: []*T{loadBase(a.A[0])}, Aux: a.Aux, Typ: typ}
+		return fieldOfTerm(loadBase(a.A[0]), a.Aux, typ)
 	case "iaddr":
 		base := a.A[0]
 		if base.Op == "faddr" || base.Op == "iaddr" || base.Op == "gaddr" || base.Op == "alloc" {
@@ -1266,6 +1289,11 @@ func (r *pxRun) call(st *pxState, fr *pxFrame, x *ssa.Call, k func(*pxState, *px
 			}
 			if len(args) == 2 && args[1].Nil {
 				return bind(base)
+			}
+			// append(append(x, a...), b...) is append(x, a..., b...)
+			if len(args) == 2 && base.Op == "append" && len(base.A) == 2 && base.A[1].HasEl && args[1].HasEl {
+				el := &T{Op: "elems", HasEl: true, Typ: args[1].Typ, Elems: append(append([]*T{}, base.A[1].Elems...), args[1].Elems...)}
+				return bind(&T{Op: "append", A: []*T{base.A[0], el}, Typ: resTyp})
 			}
 			return bind(&T{Op: "append", A: args, Typ: resTyp})
 		case "cap":
